@@ -7,7 +7,8 @@
    operation); [grun fl history] runs a history of (view, faults) from the empty database and
    remembers, as a ghost, the view of the last Sync that wrote; [heads_ok] is the property's
    assumption on the observed heads (forks at most the assumed depth below the synced block,
-   first head of a fork at most one past the synced block); [universe_ok] says the views are
+   first head of a fork at most one past the synced block; the recorded position counts as the
+   synced block also while its hash is empty after a rollback whose resync failed); [universe_ok] says the views are
    non-empty, block hashes are non-empty and identify a block with its ancestors, a key is
    registered at most once per branch, and head + range limit < 2^63. *)
 From Coq Require Import List NArith ZArith Bool Lia String.
@@ -55,17 +56,19 @@ Proof. vm_compute. split; reflexivity. Qed.
 
 (* The model's reorg test is the translated getNumReorgedBlocks (registry, sequencer; the
    constant AssumedReorgDepth inlined by the translator) and calculateReorgDepth (multi-event
-   syncer), with bytes.Equal(header.ParentHash, status.BlockHash) as a boolean argument, for
+   syncer), with bytes.Equal(header.ParentHash, status.BlockHash) as a boolean argument and
+   len(status.BlockHash) as an integer argument (unused by the functions as they are: an empty
+   stored hash is a parent mismatch like any other), for
    all block numbers within int64 (the Go int64 conversions and the + 1 are then exact). *)
 Theorem C15_generated_num_reorged :
   forall (E : Type) (fl : flavour) (k : Z) (h : bytes) (nd : node E),
     0 <= k < 9223372036854775807 -> - 9223372036854775808 <= n_number nd < 9223372036854775808 ->
     (fl_depth fl = registry_assumed_reorg_depth ->
-     num_reorged fl k h nd = gen_registry_num_reorged (n_number nd) k (bytes_eqb (n_parent nd) h)) /\
+     num_reorged fl k h nd = gen_registry_num_reorged (n_number nd) k (bytes_eqb (n_parent nd) h) (Z.of_nat (List.length h))) /\
     (fl_depth fl = sequencer_assumed_reorg_depth ->
-     num_reorged fl k h nd = gen_sequencer_num_reorged (n_number nd) k (bytes_eqb (n_parent nd) h)) /\
+     num_reorged fl k h nd = gen_sequencer_num_reorged (n_number nd) k (bytes_eqb (n_parent nd) h) (Z.of_nat (List.length h))) /\
     (- 9223372036854775808 <= fl_depth fl < 9223372036854775808 ->
-     num_reorged fl k h nd = gen_multi_reorg_depth (n_number nd) k (bytes_eqb (n_parent nd) h) (fl_depth fl)).
+     num_reorged fl k h nd = gen_multi_reorg_depth (n_number nd) k (bytes_eqb (n_parent nd) h) (Z.of_nat (List.length h)) (fl_depth fl)).
 Proof.
   intros E fl k h nd Hk Hn. split; [|split]; intros Hd.
   - apply generated_registry_num_reorged; assumption.
@@ -75,8 +78,8 @@ Qed.
 Print Assumptions C15_generated_num_reorged.
 
 Example C15_generated_num_reorged_nonvacuous :
-  gen_registry_num_reorged 26 25 false = 10 /\ gen_registry_num_reorged 8 7 false = 7 /\
-  gen_registry_num_reorged 26 25 true = 0 /\ gen_multi_reorg_depth 27 25 false 3 = 0 /\ gen_multi_reorg_depth 26 25 false 3 = 3.
+  gen_registry_num_reorged 26 25 false 32 = 10 /\ gen_registry_num_reorged 8 7 false 0 = 7 /\
+  gen_registry_num_reorged 26 25 true 32 = 0 /\ gen_multi_reorg_depth 27 25 false 32 3 = 0 /\ gen_multi_reorg_depth 26 25 false 0 3 = 3.
 Proof. vm_compute. repeat split. Qed.
 
 (* The sync position and the events it covers change together.  For every syncer flavour
